@@ -70,6 +70,13 @@ fn write_header(dst: &mut BytesMut, channel: u16) {
     dst.put_u16(channel);
 }
 
+fn performative_too_large() -> serde_amqp::Error {
+    serde_amqp::Error::Io(std::io::Error::new(
+        std::io::ErrorKind::InvalidInput,
+        "the transfer performative does not fit into the max frame size",
+    ))
+}
+
 impl FrameEncoder {
     pub(crate) fn new(max_frame_size: usize) -> Self {
         Self {
@@ -101,7 +108,13 @@ impl FrameEncoder {
             let writer = (&mut buf).writer();
             let mut serializer = Serializer::from(writer);
             transfer.serialize(&mut serializer)?;
-            let split_index = self.max_frame_body_size - buf.len();
+            // A performative that fills the frame on its own (a large delivery state) leaves
+            // no room for payload: the delivery cannot be cut into frames of this size
+            let split_index = self
+                .max_frame_body_size
+                .checked_sub(buf.len())
+                .filter(|index| *index > 0)
+                .ok_or_else(performative_too_large)?;
 
             // Send first frame
             let partial = payload.split_to(split_index);
@@ -121,7 +134,11 @@ impl FrameEncoder {
             transfer.serialize(&mut serializer)?;
 
             let mut remaining_bytes = buf.len() + payload.len();
-            let split_index = self.max_frame_body_size - buf.len();
+            let split_index = self
+                .max_frame_body_size
+                .checked_sub(buf.len())
+                .filter(|index| *index > 0)
+                .ok_or_else(performative_too_large)?;
 
             while remaining_bytes > self.max_frame_body_size {
                 // The transfer performative can be kept the same for the first n-1 frames
